@@ -1,14 +1,17 @@
 import Driver.C04
 import Driver.Bridge
 import Driver.Abi
+import Driver.C19
 
 /-- global driver state: one slot per stateful model -/
 structure St where
   bridge : Driver.Bridge.DSt := {}
+  c19 : Driver.C19.State := Driver.C19.init
 
 def stepLine (st : St) (line : String) : St × String :=
   match (line.trimAscii.toString.splitOn " ").filter (· ≠ "") with
   | "C04" :: rest => (st, Driver.C04.step rest)
+  | "C19" :: rest => let (s', o) := Driver.C19.step st.c19 rest; ({ st with c19 := s' }, o)
   | "ABI" :: rest => (st, Driver.Abi.step rest)
   | "BR" :: rest => let (b, o) := Driver.Bridge.step st.bridge rest; ({ st with bridge := b }, o)
   | _ => (st, "bad-op")
